@@ -68,14 +68,16 @@ struct Shared {
     /// handles for the wake-ups: the controller and the scenario threads (by id)
     controller: std::thread::Thread,
     threads: Vec<std::thread::Thread>,
+    tids: Vec<Arc<std::sync::atomic::AtomicU64>>,
 }
 
 impl Shared {
-    fn new(n: usize, threads: Vec<std::thread::Thread>) -> Shared {
+    fn new(n: usize, threads: Vec<std::thread::Thread>, tids: Vec<Arc<std::sync::atomic::AtomicU64>>) -> Shared {
         use std::sync::atomic::{AtomicBool, AtomicUsize};
         Shared {
             controller: std::thread::current(),
             threads,
+            tids,
             turn: AtomicUsize::new(NOBODY),
             waiting: (0..n).map(|_| AtomicBool::new(false)).collect(),
             done: (0..n).map(|_| AtomicBool::new(false)).collect(),
@@ -147,18 +149,28 @@ type Slot = Arc<Mutex<Option<Job>>>;
 struct Pool {
     slots: Vec<Slot>,
     threads: Vec<std::thread::Thread>,
+    /// kernel thread ids of the scenario threads (0 until the thread has started)
+    tids: Vec<Arc<std::sync::atomic::AtomicU64>>,
     done: Arc<Mutex<Vec<(usize, Vec<Answer>)>>>,
 }
 
 impl Pool {
     fn new() -> Pool {
-        Pool { slots: vec![], threads: vec![], done: Arc::new(Mutex::new(vec![])) }
+        Pool { slots: vec![], threads: vec![], tids: vec![], done: Arc::new(Mutex::new(vec![])) }
     }
     fn grow(&mut self) {
         let slot: Slot = Arc::new(Mutex::new(None));
         let mine = slot.clone();
         let done = self.done.clone();
+        let tid = Arc::new(std::sync::atomic::AtomicU64::new(0));
+        let my_tid = tid.clone();
         let h = std::thread::spawn(move || {
+            // "/proc/thread-self" -> "<pid>/task/<tid>"
+            if let Ok(l) = std::fs::read_link("/proc/thread-self") {
+                if let Some(t) = l.file_name().and_then(|f| f.to_str()).and_then(|f| f.parse::<u64>().ok()) {
+                    my_tid.store(t, std::sync::atomic::Ordering::Release);
+                }
+            }
             let mut spins = 0u32;
             loop {
                 // the pool's owner dropped its handle: stop
@@ -184,6 +196,7 @@ impl Pool {
             }
         });
         self.threads.push(h.thread().clone());
+        self.tids.push(tid);
         self.slots.push(slot);
     }
 }
@@ -231,6 +244,65 @@ struct Execution {
     decisions: Vec<(usize, usize)>,
     after: Vec<(Call, Answer)>,
     stalled: bool,
+    /// set when the thread that holds the turn is asleep in the kernel inside a call on the view
+    /// while every other scenario thread is parked by the scheduler (see `probe_deadlock`)
+    deadlock: Option<String>,
+}
+
+/// (state, user+system clock ticks, voluntary+involuntary context switches) of a thread of this process
+fn thread_sample(tid: u64) -> Option<(char, u64, u64)> {
+    let stat = std::fs::read_to_string(format!("/proc/self/task/{tid}/stat")).ok()?;
+    // "<tid> (<comm>) <state> ..." - comm may contain spaces: cut at the last ')'
+    let rest = &stat[stat.rfind(')')? + 2..];
+    let f: Vec<&str> = rest.split_whitespace().collect();
+    let state = f.first()?.chars().next()?;
+    let ticks = f.get(11)?.parse::<u64>().ok()? + f.get(12)?.parse::<u64>().ok()?;
+    let status = std::fs::read_to_string(format!("/proc/self/task/{tid}/status")).ok()?;
+    let mut sw = 0u64;
+    for l in status.lines() {
+        if l.starts_with("voluntary_ctxt_switches:") || l.starts_with("nonvoluntary_ctxt_switches:") {
+            sw += l.split(':').nth(1)?.trim().parse::<u64>().ok()?;
+        }
+    }
+    Some((state, ticks, sw))
+}
+
+/// Structural deadlock detection (not a time-out): under this scheduler exactly one scenario
+/// thread - the one holding the turn - executes code of the crate; all others are parked *by the
+/// scheduler* at points where they hold no lock of the view. If the turn holder is asleep in the
+/// kernel (state S: blocked, not merely waiting for a CPU, which would be R), consumes no CPU time
+/// and is not switched in or out over 40 samples spread over 2 s, while the scheduler state does
+/// not change, it waits for something only another thread could provide - and no other thread can
+/// run until it yields. That is a deadlock of this execution whatever the machine's load.
+fn probe_deadlock(shared: &Shared) -> Option<String> {
+    use std::sync::atomic::Ordering::Acquire;
+    let x = shared.turn.load(Acquire);
+    if x == NOBODY || shared.waiting[x].load(Acquire) || shared.done[x].load(Acquire) {
+        return None;
+    }
+    let tid = shared.tids[x].load(Acquire);
+    if tid == 0 {
+        return None;
+    }
+    let first = thread_sample(tid)?;
+    if first.0 != 'S' {
+        return None;
+    }
+    for _ in 0..40 {
+        std::thread::sleep(std::time::Duration::from_millis(50));
+        if shared.turn.load(Acquire) != x || shared.waiting[x].load(Acquire) || shared.done[x].load(Acquire) {
+            return None;
+        }
+        let s = thread_sample(tid)?;
+        if s != first {
+            return None;
+        }
+    }
+    let trace = shared.trace.lock().ok().map(|t| t.clone()).unwrap_or_default();
+    let last = trace.iter().rev().find(|e| e.0 == x).map(|e| e.1);
+    Some(format!(
+        "thread {x} is blocked inside its call (last event {last:?}; kernel state S, no CPU time and no context switch over 2 s) while every other thread is parked by the scheduler or done: nothing can ever wake it"
+    ))
 }
 
 /// Runs one schedule. `choices[k]` picks among the runnable threads at decision k (clamped);
@@ -244,7 +316,10 @@ fn execute(sc: &Scenario, choices: &[u8]) -> Execution {
             p.grow();
         }
     });
-    let shared = Arc::new(Shared::new(n, POOL.with(|p| p.borrow().threads[..n].to_vec())));
+    let shared = Arc::new(POOL.with(|p| {
+        let p = p.borrow();
+        Shared::new(n, p.threads[..n].to_vec(), p.tids[..n].to_vec())
+    }));
     // scenario threads come from a per-worker pool (spawning threads per execution costs more
     // than the execution and serialises on the process' address-space lock)
     POOL.with(|p| {
@@ -261,13 +336,24 @@ fn execute(sc: &Scenario, choices: &[u8]) -> Execution {
     });
     let mut decisions = vec![];
     let mut stalled = false;
+    let mut deadlock: Option<String> = None;
     loop {
         // wait until nobody runs: every thread is parked or done
         let started = std::time::Instant::now();
         let mut spins = 0u32;
+        let mut probed_at = 0u64;
         while !shared.quiescent() {
             relax(&mut spins);
-            if spins % 4096 == 0 && started.elapsed().as_secs() >= 60 {
+            let waited = started.elapsed();
+            if spins > 2_000 && waited.as_millis() as u64 >= probed_at + 1_000 {
+                probed_at = waited.as_millis() as u64;
+                if let Some(d) = probe_deadlock(&shared) {
+                    deadlock = Some(d);
+                    stalled = true;
+                    break;
+                }
+            }
+            if spins % 4096 == 0 && waited.as_secs() >= 60 {
                 stalled = true;
                 break;
             }
@@ -289,7 +375,7 @@ fn execute(sc: &Scenario, choices: &[u8]) -> Execution {
     if stalled {
         // threads are stuck (deadlock inside the view?): do not wait for them
         POOL.with(|p| *p.borrow_mut() = Pool::new());
-        return Execution { answers: vec![], trace: shared.trace.lock().unwrap().clone(), decisions, after: vec![], stalled };
+        return Execution { answers: vec![], trace: shared.trace.lock().unwrap().clone(), decisions, after: vec![], stalled, deadlock };
     }
     let mut answers: Vec<Vec<Answer>> = vec![vec![]; n];
     POOL.with(|p| {
@@ -308,7 +394,7 @@ fn execute(sc: &Scenario, choices: &[u8]) -> Execution {
     // the threads reach their first parking point concurrently: that prefix has no order
     let k = n.min(trace.len());
     trace[..k].sort_by_key(|e| e.0);
-    Execution { answers, trace, decisions, after, stalled }
+    Execution { answers, trace, decisions, after, stalled, deadlock }
 }
 
 /// Was some thread pre-empted between its finished check and its indexing lock while another
@@ -333,6 +419,9 @@ fn window_hit(trace: &[(usize, Ev)]) -> bool {
 }
 
 fn judge(sc: &Scenario, ex: &Execution, schedule: &[u8]) -> Result<(), String> {
+    if let Some(d) = &ex.deadlock {
+        return Err(format!("deadlock on text {:?}, threads {:?}: {d}; schedule {schedule:?}", sc.text, sc.threads));
+    }
     if ex.stalled {
         println!("INCONCLUSIVE property=C16 an execution made no progress for 60 s (possible deadlock); scenario {sc:?} schedule {schedule:?}");
         std::process::exit(2);
